@@ -1049,6 +1049,15 @@ fn reply_alphabet(own: u16, foreign: u16) -> Vec<String> {
     }
     v.push(format!("GB.{}", own));
     v.push(format!("UN.{}.9.01", own));
+    // a hand-built Unknown message around the frame of a report or an acknowledgement the operation is waiting for (a bus
+    // implementation may hand back whatever it likes; Unknown is not the message its frame would decode to)
+    for m in [format!("RS.{}.CRX", own), format!("RS.{}.PRX", own), format!("RS.{}.UNC", own), format!("RS.{}.PLD", own), format!("AO.{}.RCF", own), format!("AO.{}.RPX", own)] {
+        let f = crate::eval::eval_case(&format!("M2F {}", m));
+        let p: Vec<&str> = f.split('.').collect();
+        if p.len() == 3 {
+            v.push(format!("UN.{}.{}.{}", p[0], p[1], p[2]));
+        }
+    }
     v.push("SD.0.00".to_string());
     v.push(format!("HE.{}", own));
     // "=": the bus answers with the very message it was sent (an echo); materialised per node by the DFS
